@@ -1,0 +1,70 @@
+//go:build verif
+
+package codec
+
+// Contracts checked by /verif/govc (contract-based deductive verification).
+// Comment-only: with the `verif` tag off this file is not even parsed.
+//
+// C37: a feature scheduled at height h0 != 0 is active exactly at heights >= h0
+// (m[k] on a Go map is the zero value when the key is absent). TestMode is the
+// documented test-only escape and is part of the contract.
+
+//@ func (*Codec).IsAfterNamedFeatureActivationHeight
+//@   props C37
+//@   panics_never
+//@   modifies nothing
+//@   ensures result == (global(UpgradeFeatureMap)[key] != 0 && height >= global(UpgradeFeatureMap)[key])
+
+//@ func (*Codec).IsOnNamedFeatureActivationHeight
+//@   props C37
+//@   panics_never
+//@   modifies nothing
+//@   ensures result == (global(UpgradeFeatureMap)[key] != 0 && height == global(UpgradeFeatureMap)[key])
+
+//@ func (*Codec).IsOnNamedFeatureActivationHeightWithTolerance
+//@   props C37
+//@   panics_never
+//@   modifies nothing
+//@   ensures result == (global(UpgradeFeatureMap)[featureKey] != 0 && height >= global(UpgradeFeatureMap)[featureKey] - tolerance && height <= global(UpgradeFeatureMap)[featureKey] + tolerance)
+
+//@ func (*Codec).IsAfterNonCustodialUpgrade
+//@   props C37
+//@   panics_never
+//@   modifies nothing
+//@   ensures result == ((global(UpgradeFeatureMap)["NCUST"] != 0 && height >= global(UpgradeFeatureMap)["NCUST"]) || global(TestMode) <= 0 - 3)
+
+//@ func (*Codec).IsOnNonCustodialUpgrade
+//@   props C37
+//@   panics_never
+//@   modifies nothing
+//@   ensures result == ((global(UpgradeFeatureMap)["NCUST"] != 0 && height == global(UpgradeFeatureMap)["NCUST"]) || global(TestMode) <= 0 - 3)
+
+//@ func (*Codec).IsAfterOutputAddressEditorUpgrade
+//@   props C37
+//@   panics_never
+//@   modifies nothing
+//@   ensures result == ((global(UpgradeFeatureMap)["OEDIT"] != 0 && height >= global(UpgradeFeatureMap)["OEDIT"]) || global(TestMode) <= 0 - 3)
+
+//@ func (*Codec).IsAfterPerChainRTTMUpgrade
+//@   props C37
+//@   panics_never
+//@   modifies nothing
+//@   ensures result == ((global(UpgradeFeatureMap)["PerChainRTTM"] != 0 && height >= global(UpgradeFeatureMap)["PerChainRTTM"]) || global(TestMode) <= 0 - 3)
+
+//@ func (*Codec).IsAfterAppTransferUpgrade
+//@   props C37
+//@   panics_never
+//@   modifies nothing
+//@   ensures result == ((global(UpgradeFeatureMap)["AppTransfer"] != 0 && height >= global(UpgradeFeatureMap)["AppTransfer"]) || global(TestMode) <= 0 - 3)
+
+//@ func (*Codec).IsAfterRewardDelegatorUpgrade
+//@   props C37
+//@   panics_never
+//@   modifies nothing
+//@   ensures result == ((global(UpgradeFeatureMap)["RewardDelegators"] != 0 && height >= global(UpgradeFeatureMap)["RewardDelegators"]) || global(TestMode) <= 0 - 3)
+
+//@ func (*Codec).IsAfterEnforceMaxChainsUpgrade
+//@   props C37
+//@   panics_never
+//@   modifies nothing
+//@   ensures result == ((global(UpgradeFeatureMap)["MAXCH"] != 0 && height >= global(UpgradeFeatureMap)["MAXCH"]) || global(TestMode) <= 0 - 3)
